@@ -54,7 +54,14 @@ func genField(t *rapid.T, label string, max int) (hotline.Field, hlref.Field) {
 	ty := genBytes(t, label+"_type", 2)
 	n := genSize(t, label+"_size", max)
 	d := genBytes(t, label+"_data", n)
-	return hotline.NewField(arr2(ty), d), hlref.F(hlref.U16(ty), d)
+	// a field is a value: the caller's buffer (an array of the session, a reused read buffer) may be rewritten between
+	// the construction of a transaction and the moment it is drained to the wire
+	src := append([]byte{}, d...)
+	f := hotline.NewField(arr2(ty), src)
+	for i := range src {
+		src[i] ^= 0xFF
+	}
+	return f, hlref.F(hlref.U16(ty), d)
 }
 
 func eqErr(what string, got, want any) error {
